@@ -182,27 +182,34 @@ fn cases() -> Vec<Case> {
             v.push(Case::Prog { name: format!("first-frame-cts/cts={c}/frames={}", ts.len()), cfg, ops });
         }
     }
-    // Family B: audio gaps after one video frame
+    // Family B: audio gaps after one video frame. The audio starts with the video, 3000 ticks or
+    // one second after it, or (vshape 1) between the presentation and the later decode time of a
+    // first video frame with a negative composition offset: each track's 32-bit total is its own
     for &g1 in &g {
         for g2 in std::iter::once(None).chain(g.iter().map(|&x| Some(x))) {
             for ac in [ACodec::AacLc, ACodec::Opus] {
-                let cfg = Cfg::basic(VCodec::Vp9, Some(ac), g1 % 2 == 1);
-                let mut ops = vec![Op::WV { pts: T(0.0), data: key(VCodec::Vp9, 1), key: true }];
-                let mut t = 0u64;
-                let mut times = vec![0u64];
-                t += g1;
-                times.push(t);
-                if let Some(g2) = g2 {
-                    t += g2;
+                for (vshape, astart) in [(0u8, 0u64), (0, 3000), (0, 90_000), (1, 45_000)] {
+                    if astart != 0 && ac == ACodec::Opus && g2.is_some() {
+                        continue;
+                    }
+                    let cfg = Cfg::basic(VCodec::Vp9, Some(ac), g1 % 2 == 1);
+                    let mut ops = if vshape == 0 { vec![Op::WV { pts: T(0.0), data: key(VCodec::Vp9, 1), key: true }] } else { vec![Op::WVD { pts: T(0.0), dts: T(1.0), data: key(VCodec::Vp9, 1), key: true }] };
+                    let mut t = astart;
+                    let mut times = vec![t];
+                    t += g1;
                     times.push(t);
+                    if let Some(g2) = g2 {
+                        t += g2;
+                        times.push(t);
+                    }
+                    if !times.iter().all(|&x| tick(secs(x)) == x && tick_is_robust(secs(x))) {
+                        continue;
+                    }
+                    for (i, &x) in times.iter().enumerate() {
+                        ops.push(Op::WA { pts: T(secs(x)), data: Bytes::new(frames::audio_frame(ac, i as u32, 6).0) });
+                    }
+                    v.push(Case::Prog { name: format!("audio-gaps/{ac:?}/v{vshape}/start={astart}/g1={g1}/g2={g2:?}"), cfg, ops });
                 }
-                if !times.iter().all(|&x| tick(secs(x)) == x && tick_is_robust(secs(x))) {
-                    continue;
-                }
-                for (i, &x) in times.iter().enumerate() {
-                    ops.push(Op::WA { pts: T(secs(x)), data: Bytes::new(frames::audio_frame(ac, i as u32, 6).0) });
-                }
-                v.push(Case::Prog { name: format!("audio-gaps/{ac:?}/g1={g1}/g2={g2:?}"), cfg, ops });
             }
         }
     }
@@ -243,16 +250,40 @@ fn cases() -> Vec<Case> {
             }
         }
     }
-    // Family F: large absolute timestamps (relative timing must stay exact or be rejected)
-    for &base in &[(1u64 << 40), (1u64 << 52), (1u64 << 53) - 3000] {
-        for &step in &[3000u64, 1 << 31] {
-            let ts = [base, base + step, base + 2 * step];
-            if !ts.iter().all(|&x| tick(secs(x)) == x && tick_is_robust(secs(x))) {
-                continue;
+    // Family F: large absolute timestamps (relative timing must stay exact or be rejected).
+    // Between 2^52 and 2^53 ticks every f64 tick value is a whole number and adding 0.5 to it is
+    // not representable; odd and even tick values, odd and even steps, through every entry point.
+    // Every time stays below 2^53 ticks (3170 years): beyond that the documented conversion
+    // round(seconds x 90000) is itself only defined up to the f64 product's 2-tick spacing
+    for &base in &[(1u64 << 40), (1u64 << 40) + 1, (1u64 << 52), (1u64 << 52) + 1, 3 * (1u64 << 51) + 7, (1u64 << 53) - (1u64 << 33) - 9009] {
+        for &step in &[3000u64, 3003, 1, 1501, (1 << 31) - 1, 1 << 31] {
+            for shape in 0..3u8 {
+                // the times are snapped to what a seconds value can express at this magnitude
+                let ss: Vec<f64> = [base, base + step, base + 2 * step].iter().map(|&x| secs(x)).collect();
+                let ts: Vec<u64> = ss.iter().map(|&x| tick(x)).collect();
+                if !ss.iter().all(|&x| tick_is_robust(x)) || !(ts[0] < ts[1] && ts[1] < ts[2]) {
+                    continue;
+                }
+                let (codec, audio) = match shape {
+                    0 => (VCodec::Av1, None),
+                    1 => (VCodec::H264, None),
+                    _ => (VCodec::Vp9, Some(ACodec::Opus)),
+                };
+                let cfg = Cfg::basic(codec, audio, step % 2 == 0);
+                let mut ops: Vec<Op> = vec![];
+                for (i, &x) in ss.iter().enumerate() {
+                    let data = if i == 0 { key(codec, 1) } else { delta(codec, 2) };
+                    match shape {
+                        // reordered: the middle frame is presented one step late (pts of frame 1 = time of frame 2)
+                        1 => ops.push(Op::WVD { pts: T(if i == 1 { ss[2] } else if i == 2 { ss[1] } else { x }), dts: T(x), data, key: i == 0 }),
+                        _ => ops.push(Op::WV { pts: T(x), data, key: i == 0 }),
+                    }
+                    if shape == 2 {
+                        ops.push(Op::WA { pts: T(x), data: Bytes::new(frames::audio_frame(ACodec::Opus, i as u32, 6).0) });
+                    }
+                }
+                v.push(Case::Prog { name: format!("large-timestamps/base={base}/step={step}/shape={shape}"), cfg, ops });
             }
-            let cfg = Cfg::basic(VCodec::Av1, None, false);
-            let ops = ts.iter().enumerate().map(|(i, &x)| Op::WV { pts: T(secs(x)), data: if i == 0 { key(VCodec::Av1, 1) } else { delta(VCodec::Av1, 2) }, key: i == 0 }).collect();
-            v.push(Case::Prog { name: format!("large-timestamps/base={base}/step={step}"), cfg, ops });
         }
     }
     for &huge in &[1e15f64, 1e300, f64::MAX] {
